@@ -528,20 +528,13 @@ pub fn parse_copy_into(parser: &mut Parser) -> Result<Statement, ParserError> {
     if parser.parse_keyword(Keyword::FILES) {
         parser.expect_token(&Token::Eq)?;
         parser.expect_token(&Token::LParen)?;
-        let mut continue_loop = true;
-        while continue_loop {
-            continue_loop = false;
+        files = parser.parse_comma_separated(|parser| {
             let next_token = parser.next_token();
             match next_token.token {
-                Token::SingleQuotedString(s) => files.push(s),
-                _ => parser.expected("file token", next_token)?,
-            };
-            if parser.next_token().token.eq(&Token::Comma) {
-                continue_loop = true;
-            } else {
-                parser.prev_token(); // not a comma, need to go back
+                Token::SingleQuotedString(s) => Ok(s),
+                _ => parser.expected("file token", next_token),
             }
-        }
+        })?;
         parser.expect_token(&Token::RParen)?;
     }
 
